@@ -9,8 +9,12 @@ from . import core
 
 
 # which real stream identities the three model streams get: neighbouring tuples differ in exactly ONE component
-# (identification, protocol, VLAN id, channel, source, destination, IPv4 vs IPv6, upper 16 bits of the IPv6 identification)
-PAIRS = [[0, 1, 2], [0, 3, 4], [0, 5, 10], [6, 7, 8], [6, 11, 12], [6, 13, 0], [3, 9, 0], [1, 10, 5], [11, 12, 13], [6, 0, 2], [7, 6, 11], [4, 0, 10]]
+# (identification, protocol, VLAN id, channel, source, destination, IPv4 vs IPv6, upper 16 bits of the IPv6 identification,
+# one id of a VLAN stack with or without a MACsec tag between the tags)
+PAIRS = [[0, 1, 2], [0, 3, 4], [0, 5, 10], [6, 7, 8], [6, 11, 12], [6, 13, 0], [3, 9, 0], [1, 10, 5], [11, 12, 13], [6, 0, 2], [7, 6, 11], [4, 0, 10],
+         # VLAN stacks and MACsec tags (tuples 14..28 of the harness): all VLAN ids of the packet belong to the identity, wherever a MACsec tag sits
+         # (the position of the MACsec tag itself is not part of the identity: the three tuples of a row differ in their VLAN id lists)
+         [14, 15, 16], [14, 17, 3], [18, 19, 3], [20, 21, 24], [22, 23, 3], [18, 21, 23], [26, 27, 28], [26, 14, 3], [25, 6, 24], [19, 16, 17]]
 
 
 def mc(tier, wd):
